@@ -39,7 +39,7 @@ vars == <<G, hist, done>>
 Tok(k) == [k |-> k, t |-> 0, n |-> ""]
 TokT(k, t) == [k |-> k, t |-> t, n |-> ""]
 Call(name) == [k |-> "CALL", t |-> 0, n |-> name]
-Parking == {"BEGIN", "LK", "LS", "WM", "RM", "LF", "NOTIFY", "JOIN", "SPAWN", "START", "WAIT"}
+Parking == {"BEGIN", "LK", "LS", "LN", "WM", "RM", "LF", "NOTIFY", "JOIN", "SPAWN", "START", "WAIT"}
 
 (* a draw goes through the MultiState lock while the bar is a member: decided when the draw is reached, under the bar state lock *)
 Draw == <<Tok("DRAW")>>
@@ -56,11 +56,19 @@ CallTokens(name) ==
       [] name = "enable"  -> <<Tok("LK"), Tok("STOPJOIN"), Tok("CLEARSLOT"), Tok("SPAWN"), Tok("UK")>>
       [] name = "mp_println" -> <<Tok("WM"), Tok("UM")>>
       [] name = "mp_remove" -> <<Tok("LS"), Tok("RM_IFMEMBER"), Tok("US")>>      \* MultiProgress::remove: bar state, then MultiState
+      (* MultiProgress::insert_after(&bar, new): the anchor's index is read under its state lock, the slot is made under the   *)
+      (* MultiState lock, then the new bar (LN: its own state lock, which nobody else can hold) is pointed at the slot         *)
+      [] name = "mp_insert_after" -> <<Tok("LS"), Tok("US"), Tok("WM"), Tok("UM"), Tok("LN"), Tok("UN")>>
       [] name = "drop"    -> <<Tok("DEC")>>
+      (* the bars a caller inserted are dropped before its handle of the shared bar: an unfinished bar finishes (a draw through *)
+      (* the MultiState lock) and is marked a zombie (the lock again)                                                          *)
+      [] name = "drop_extra" -> <<Tok("WM"), Tok("UM"), Tok("WM"), Tok("UM")>>
 
 CallerScript(c) ==
     <<Tok("BEGIN")>> \o (IF InitTicker /\ c = 1 THEN <<Call("enable")>> ELSE <<>>)
-    \o [j \in 1..Len(Programs[c]) |-> Call(Programs[c][j])] \o <<Call("drop")>>
+    \o [j \in 1..Len(Programs[c]) |-> Call(Programs[c][j])]
+    \o [j \in 1..Cardinality({q \in 1..Len(Programs[c]) : Programs[c][q] = "mp_insert_after"}) |-> Call("drop_extra")]
+    \o <<Call("drop")>>
 
 G0 == [S |-> 0, K |-> 0, M |-> 0, MR |-> {}, F |-> [t \in Tickers |-> 0], stop |-> [t \in Tickers |-> FALSE], notified |-> [t \in Tickers |-> FALSE],
        slot |-> 0, fin |-> FALSE, removed |-> FALSE, handles |-> Len(Programs), dead |-> FALSE, tup |-> [t \in Tickers |-> FALSE],
@@ -93,6 +101,7 @@ Run(g, x) ==
          ELSE CASE tk.k = "UK" -> push([g EXCEPT !.K = 0], <<>>)
                 [] tk.k = "US" -> push([g EXCEPT !.S = 0], <<>>)
                 [] tk.k = "UM" -> push([g EXCEPT !.M = 0], <<>>)
+                [] tk.k = "UN" -> push(g, <<>>)
                 [] tk.k = "URM" -> push([g EXCEPT !.MR = @ \ {me}], <<>>)
                 [] tk.k = "WIDTH" -> push(g, IF Multi /\ ~g.removed THEN <<Tok("RM"), Tok("URM")>> ELSE <<>>)
                 [] tk.k = "ZOMBIE" -> push(g, IF Multi /\ ~g.removed THEN <<Tok("WM"), Tok("UM")>> ELSE <<>>)
@@ -151,6 +160,7 @@ StepOf(g, x) ==
          IN CASE tk.k = "BEGIN" -> {cont(g)}
               [] tk.k = "LK" -> IF g.K = 0 THEN {cont([g EXCEPT !.K = me])} ELSE {}
               [] tk.k = "LS" -> IF g.S = 0 THEN {cont([g EXCEPT !.S = me])} ELSE {}
+              [] tk.k = "LN" -> {cont(g)}
               [] tk.k = "WM" -> IF g.M = 0 /\ g.MR = {} THEN {cont([g EXCEPT !.M = me])} ELSE {}
               [] tk.k = "RM" -> IF g.M = 0 THEN {cont([g EXCEPT !.MR = @ \cup {me}])} ELSE {}
               [] tk.k = "LF" -> IF g.F[tk.t] = 0 THEN {cont([g EXCEPT !.F[tk.t] = me])} ELSE {}
